@@ -417,6 +417,21 @@ func (a *FuncAn) check(b *ssa.BasicBlock, goals []Goal) (bool, string) {
 			if why, un := a.untrackedNear(b, g.L); un {
 				return false, untrackedPrefix + g.Text + "  [" + a.goalText(g.L) + "] is known only through " + why
 			}
+			// a value of the goal was examined by a module function whose nil error is established on this path (a
+			// validation helper: `if err := b.checkIndex(i); err != nil { return err }`): what that success implies is a
+			// fact about the helper's arguments and the state it reads, which no summary of this engine carried here
+			for _, t := range g.L.t {
+				v := a.atomVal[t.a]
+				if v == nil {
+					v = a.lenAtomOf[t.a]
+				}
+				if v == nil {
+					continue
+				}
+				if h := a.vettedBy(a.in[b], a.cv(v)); h != "" {
+					return false, untrackedPrefix + g.Text + "  [" + a.goalText(g.L) + "]: " + a.valName(v) + " was examined by " + h + ", which returned no error on this path; what that success implies is not summarised"
+				}
+			}
 			return false, "cannot show " + g.Text + "  [" + a.goalText(g.L) + "]; facts: " + a.factsText(b, g.L)
 		}
 	}
@@ -811,8 +826,19 @@ func (a *FuncAn) vettedBy(s *State, v ssa.Value) string {
 		if _, hasErr := errOfSignature(callee.Signature); !hasErr {
 			continue
 		}
+		vr := valueRoots(v, 0)
 		for _, arg := range c.Call.Args {
-			if a.cv(arg) == v {
+			hit := a.cv(arg) == v
+			if !hit {
+				// the helper received the object the value belongs to (`p.validate()` on the struct whose field is
+				// dereferenced, whose Size() is taken, …)
+				for r := range valueRoots(arg, 0) {
+					if vr[r] {
+						hit = true
+					}
+				}
+			}
+			if hit {
 				if n := FuncShort(callee); best == "" || n < best {
 					best = n
 				}
@@ -825,4 +851,57 @@ func (a *FuncAn) vettedBy(s *State, v ssa.Value) string {
 func errOfSignature(sig *types.Signature) (int, bool) {
 	i := errIndex(sig)
 	return i, i >= 0
+}
+
+// valueRoots: the local variables and pointer parameters a value is read from or computed over: through loads, field
+// and element selections, conversions, and the receiver/arguments of calls (the Size() of an object is rooted in it).
+// Plain scalar and slice parameters are not roots: sharing `data` with a helper says nothing about an index into it.
+func valueRoots(v ssa.Value, depth int) map[ssa.Value]bool {
+	out := map[ssa.Value]bool{}
+	var walk func(v ssa.Value, d int)
+	walk = func(v ssa.Value, d int) {
+		if v == nil || d > 6 {
+			return
+		}
+		switch x := v.(type) {
+		case *ssa.Alloc:
+			if _, isStruct := derefType(x.Type()).Underlying().(*types.Struct); isStruct {
+				out[x] = true
+			}
+		case *ssa.Parameter:
+			if pt, ok := x.Type().Underlying().(*types.Pointer); ok {
+				if _, isStruct := pt.Elem().Underlying().(*types.Struct); isStruct {
+					out[x] = true
+				}
+			} else if _, isStruct := x.Type().Underlying().(*types.Struct); isStruct {
+				out[x] = true
+			}
+		case *ssa.UnOp:
+			walk(x.X, d+1)
+		case *ssa.FieldAddr:
+			walk(x.X, d+1)
+		case *ssa.IndexAddr:
+			walk(x.X, d+1)
+		case *ssa.Field:
+			walk(x.X, d+1)
+		case *ssa.ChangeType:
+			walk(x.X, d+1)
+		case *ssa.Convert:
+			walk(x.X, d+1)
+		case *ssa.Extract:
+			walk(x.Tuple, d+1)
+		case *ssa.Call:
+			if _, isB := x.Call.Value.(*ssa.Builtin); isB {
+				for _, a := range x.Call.Args {
+					walk(a, d+1)
+				}
+				return
+			}
+			if x.Call.StaticCallee() != nil && !x.Call.IsInvoke() && len(x.Call.Args) > 0 {
+				walk(x.Call.Args[0], d+1)
+			}
+		}
+	}
+	walk(v, depth)
+	return out
 }
